@@ -9,7 +9,7 @@ PRE = ('fax_l0', 'fmeth', 'stdspec')
 BC = ('l0', 'ax_vec_from_refl', 'ax_f64_cloned')
 B = 'linalg::array::broadcast::'
 
-SPEC = core.CORE_SPEC + r'''
+SPEC_ONLY = r'''
 /// NumPy compatibility of two shapes (property C12): every dimension equal, or one of them 1
 pub open spec fn compat(m1: Matrix, m2: Matrix) -> bool {
     (m1.nrows == m2.nrows || m1.nrows == 1 || m2.nrows == 1) && (m1.ncols == m2.ncols || m1.ncols == 1 || m2.ncols == 1)
@@ -31,6 +31,7 @@ pub open spec fn class_ok(m1: Matrix, m2: Matrix, b0: Broadcast, b1: Broadcast) 
     }
 }
 '''
+SPEC = core.CORE_SPEC + SPEC_ONLY
 TYPES = core.TYPES + [B + '{enum Broadcast}']
 classify = Fn(B + 'calc_broadcast_shape', ret='r', valid='compat(*m1, *m2)', rej_clause=False, panics={1: 'REJECT', 2: 'REJECT'},
               decreases='(if m1.nrows == 1 || m1.ncols == 1 { 0int } else { 1int })',
